@@ -305,14 +305,6 @@ theorem frame_roundtrip (avail : Nat) (f : Frame) (bs tail : List Nat) (hv : Fra
     split at he <;> simp at he
     rename_i x y z hx hy hz
     subst he
-    -- for 1..20 bytes the 8-bit length prefix is also the 1-byte varint
-    have hz' : appendVarintBytes cid = some z := by
-      unfold appendUint8Bytes at hz
-      split at hz <;> simp at hz
-      subst hz
-      have : appendVarint cid.length = some [cid.length] := by
-        unfold appendVarint; simp; omega
-      simp [appendVarintBytes, this]
     have hlx := size_eq_length seq x hx
     have hly := size_eq_length retire y hy
     rw [ha] at hlx; rw [hb] at hly
@@ -329,7 +321,7 @@ theorem frame_roundtrip (avail : Nat) (f : Frame) (bs tail : List Nat) (hv : Fra
         have e : x ++ (y ++ (z ++ tok)) ++ tail = x ++ (y ++ (z ++ (tok ++ tail))) := by simp
         rw [e]
         simp [parseBody, consumeNewConnectionID, takeVarint_append seq x _ hx, takeVarint_append retire y _ hy,
-          takeVarintBytes_append cid _ z hz', hnlt]
+          takeUint8Bytes_append cid _ z hz, hnlt]
         refine ⟨⟨?_, hc2⟩, by omega, ?_, ?_⟩
         · intro hc; simp [hc] at hc1
         · rw [← ht]; simp
@@ -750,53 +742,98 @@ theorem parser_accepts_only_valid (b : List Nat) (f : Frame) (n : Nat) (h : pars
     obtain ⟨rfl, _⟩ := h
     exact parseBody_valid t rest _ r hb
 
-/-! ### Findings (the code as it is) -/
+/-! ### Former findings, repaired upstream: now full theorems -/
 
-/-- What `parseDebugFrameAck` is meant to do with the ranges: reverse them. -/
-def DebugAckOrderStatement : Prop := ∀ l : List Nat, debugReverse l = l.reverse
+private theorem swapAt_getElem? {α : Type} (l : List α) (i j k : Nat) (hi : i < l.length) (hj : j < l.length) :
+    (swapAt l i j)[k]? = if k = j then l[i]? else if k = i then l[j]? else l[k]? := by
+  unfold swapAt
+  simp only [List.getElem?_eq_getElem hi, List.getElem?_eq_getElem hj]
+  simp only [List.getElem?_set]
+  by_cases hkj : k = j
+  · subst hkj; simp [hi, hj]
+  · by_cases hki : k = i
+    · subst hki
+      have : ¬ j = k := fun h => hkj h.symm
+      simp [hkj, this, hi, hj]
+    · have h1 : ¬ j = k := fun h => hkj h.symm
+      have h2 : ¬ i = k := fun h => hki h.symm
+      simp [hkj, hki, h1, h2]
 
-/-- The loop swaps element `i` with the LAST element on every iteration: four ranges come out
-as `[d, a, c, b]`. (Finding `debugack-range-order`.) -/
-theorem debugAckOrder_full_false : ¬ DebugAckOrderStatement := by
-  intro h
-  have := h [1, 2, 3, 4]
-  revert this
-  decide
+private theorem swapAt_length {α : Type} (l : List α) (i j : Nat) : (swapAt l i j).length = l.length := by
+  unfold swapAt
+  split <;> simp
 
-/-- … and it is the reversal for up to three ranges. -/
-theorem debugAckOrder_holds_partial {α : Type} (l : List α) (h : l.length ≤ 3) :
-    debugReverse l = l.reverse := by
-  match l, h with
-  | [], _ => simp [debugReverse]
-  | [a], _ => simp [debugReverse]
-  | [a, b], _ => simp [debugReverse, swapAt, List.range, List.range.loop]
-  | [a, b, c], _ => simp [debugReverse, swapAt, List.range, List.range.loop]
+/-- State of the swap loop after `m` iterations. -/
+private theorem debugReverse_inv {α : Type} (l : List α) (m : Nat) (hm : m ≤ l.length / 2) :
+    ((List.range m).foldl (fun acc i => swapAt acc i (l.length - 1 - i)) l).length = l.length ∧
+    ∀ k, ((List.range m).foldl (fun acc i => swapAt acc i (l.length - 1 - i)) l)[k]? =
+      if k < m ∨ (l.length - m ≤ k ∧ k < l.length) then l[l.length - 1 - k]? else l[k]? := by
+  induction m with
+  | zero =>
+    refine ⟨by simp, ?_⟩
+    intro k
+    have : ¬ (l.length ≤ k ∧ k < l.length) := by omega
+    simp [this]
+  | succ m ih =>
+    obtain ⟨hlen, hget⟩ := ih (by omega)
+    rw [List.range_succ, List.foldl_append]
+    simp only [List.foldl_cons, List.foldl_nil]
+    generalize hacc : (List.range m).foldl (fun acc i => swapAt acc i (l.length - 1 - i)) l = acc at hlen hget
+    refine ⟨by rw [swapAt_length, hlen], ?_⟩
+    intro k
+    have hmi : m < acc.length := by omega
+    have hmj : l.length - 1 - m < acc.length := by omega
+    rw [swapAt_getElem? acc m (l.length - 1 - m) k hmi hmj, hget m, hget (l.length - 1 - m), hget k]
+    have c1 : ¬ (m < m ∨ (l.length - m ≤ m ∧ m < l.length)) := by omega
+    have c2 : ¬ (l.length - 1 - m < m ∨ (l.length - m ≤ l.length - 1 - m ∧ l.length - 1 - m < l.length)) := by omega
+    simp only [c1, c2, if_false]
+    by_cases hk1 : k = l.length - 1 - m
+    · subst hk1
+      have : l.length - 1 - m < m + 1 ∨ (l.length - (m + 1) ≤ l.length - 1 - m ∧ l.length - 1 - m < l.length) := by omega
+      have e : l.length - 1 - (l.length - 1 - m) = m := by omega
+      rw [if_pos rfl, if_pos this, e]
+    · by_cases hk2 : k = m
+      · subst hk2
+        have : k < k + 1 ∨ (l.length - (k + 1) ≤ k ∧ k < l.length) := by omega
+        rw [if_neg hk1, if_pos rfl, if_pos this]
+      · simp only [hk1, hk2, if_false]
+        have : (k < m + 1 ∨ (l.length - (m + 1) ≤ k ∧ k < l.length)) ↔ (k < m ∨ (l.length - m ≤ k ∧ k < l.length)) := by
+          omega
+        simp only [this]
 
-/-- RFC 9000 §19.15: the Length field of NEW_CONNECTION_ID is ONE byte and must be in 1..20.
-Stated for frames whose sequence numbers are the one-byte varints 0, 0: the byte after them. -/
-def NewCidLengthStatement : Prop :=
-  ∀ (l : Nat) (rest : List Nat) (f : Frame) (r : List Nat), l < 256 →
-    consumeNewConnectionID (0 :: 0 :: l :: rest) = some (f, r) → 1 ≤ l ∧ l ≤ 20
+/-- **`parseDebugFrameAck`'s in-place swap loop reverses the range list**, for every length
+(the ranges come out lowest first, as written). Formerly false for four or more ranges
+(`j := len-1` did not depend on `i`); repaired upstream. -/
+theorem debugAckOrder_holds {α : Type} (l : List α) : debugReverse l = l.reverse := by
+  obtain ⟨hlen, hget⟩ := debugReverse_inv l (l.length / 2) (Nat.le_refl _)
+  apply List.ext_getElem?
+  intro k
+  unfold debugReverse
+  rw [hget k]
+  by_cases hk : k < l.length
+  · rw [List.getElem?_reverse hk]
+    split
+    · rfl
+    · have : k = l.length - 1 - k := by omega
+      rw [← this]
+  · have h1 : ¬ (k < l.length / 2 ∨ (l.length - l.length / 2 ≤ k ∧ k < l.length)) := by omega
+    simp only [h1, if_false]
+    rw [List.getElem?_eq_none (by omega), List.getElem?_eq_none (by simp; omega)]
 
-/-- The parser reads the length as a varint: Length byte 0x40 (= 64, out of range) followed by
-0x01 is accepted as a 1-byte connection ID. (Finding `newcid-length-not-uint8`.) -/
-theorem newCidLength_full_false : ¬ NewCidLengthStatement := by
-  intro h
-  have := h 64 (1 :: 7 :: List.replicate 16 9) (Frame.newConnectionID 0 0 [7] (List.replicate 16 9)) []
-    (by decide) (by decide)
-  omega
+/-- The witness of the former defect, now reversed correctly. -/
+example : debugReverse [1, 2, 3, 4] = [4, 3, 2, 1] := by decide
 
-/-- Outside the region `Length byte ≥ 64` the 8-bit reading and the varint reading agree. -/
-theorem newCidLength_holds_partial (l : Nat) (rest : List Nat) (f : Frame) (r : List Nat) (hl : l < 64)
+/-- **RFC 9000 §19.15: the Length field of NEW_CONNECTION_ID is ONE byte in 1..20.** Stated for
+frames whose sequence numbers are the one-byte varints 0, 0: the byte after them. Formerly false
+for Length bytes ≥ 64 (the field was read as a varint); repaired upstream. -/
+theorem newCidLength_holds (l : Nat) (rest : List Nat) (f : Frame) (r : List Nat)
     (h : consumeNewConnectionID (0 :: 0 :: l :: rest) = some (f, r)) : 1 ≤ l ∧ l ≤ 20 := by
   have h0 : takeVarint (0 :: 0 :: l :: rest) = some (0, 0 :: l :: rest) := by
     simp [takeVarint, consumeVarint]
   have h1 : takeVarint (0 :: l :: rest) = some (0, l :: rest) := by
     simp [takeVarint, consumeVarint]
-  have hd : l / 64 = 0 := by omega
-  have hm : l % 64 = l := by omega
   simp only [consumeNewConnectionID, h0, h1] at h
-  simp [takeVarintBytes, consumeVarintBytes, consumeVarint, hd, hm] at h
+  simp [takeUint8Bytes, consumeUint8Bytes] at h
   by_cases hlen : rest.length < l
   · simp [hlen] at h
   · simp [hlen] at h
@@ -807,6 +844,9 @@ theorem newCidLength_holds_partial (l : Nat) (rest : List Nat) (f : Frame) (r : 
     cases l with
     | zero => simp at hne
     | succ l => omega
+
+/-- The witness of the former defect (Length byte 0x40 followed by 0x01) is now rejected. -/
+example : consumeNewConnectionID (0 :: 0 :: 64 :: 1 :: 7 :: List.replicate 16 9) = none := by decide
 
 /-! ### Transport parameters -/
 
